@@ -679,6 +679,35 @@ def r6_nan_free_fit_inputs(ctx):
                       "ValueError, so compute_poc raises for this "
                       "degenerate input instead of falling back to the "
                       "middle of the data")
+        # a reduction over the part of the data before an index estimate is
+        # NaN (mean/std) when that index is 0 (no baseline)
+        for node in walk_no_nested(f, False):
+            if not (isinstance(node, ast.Call) and (call_name(node) or "")
+                    in ("np.mean", "np.average", "np.median", "np.std",
+                        "np.nanmean", "np.var") and node.args
+                    and isinstance(node.args[0], ast.Subscript)
+                    and isinstance(node.args[0].slice, ast.Slice)):
+                continue
+            sl = node.args[0].slice
+            up = sl.upper
+            if sl.lower is None and isinstance(up, ast.Name) and \
+                    up.id in idx_names:
+                n += 1
+                guarded = any(
+                    a.pol and isinstance(a.node, (ast.Compare, ast.Name))
+                    and up.id in {x.id for x in ast.walk(a.node)
+                                  if isinstance(x, ast.Name)}
+                    and ("> 0" in a.text or ">= 1" in a.text
+                         or a.text == up.id or "!= 0" in a.text)
+                    for a in conditions_at(node))
+                ctx.check(guarded, node,
+                          f"{f.name}: `{norm(node)[:40]}` over a non-empty "
+                          "part",
+                          f"{f.name} averages `{norm(node.args[0])[:40]}`, "
+                          f"which is empty when the index estimate "
+                          f"`{up.id}` is 0 (curve without baseline): the "
+                          "NaN reaches lmfit.minimize, which raises "
+                          "ValueError instead of the documented fallback")
     ctx.floor("zero-prone divisions in fitting estimators", n, 3)
 
 
